@@ -150,6 +150,9 @@ def _classify_reresolve(addr, model_doc, fslash):
             if first and not fslash and isinstance(x, str) and x.startswith("/"):
                 return "dot-path-leading-slash"
             node = {"k": "null"}
+        elif node["k"] == "map" and t == "r":
+            names = node.get("merge_anchors", [])
+            return "merge-ref-not-resolved" if x < len(names) else None
         else:
             node = {"k": "null"}
         first = False
@@ -249,7 +252,7 @@ def run_chunk(job):
         for p, addrs in by_path.items():
             want = set()
             for a in addrs:
-                kk = sg.key_of_addr(root, a)
+                kk = sg.key_of_addr(root, a, anchors)
                 if kk is None:
                     disag.append(("model-address-missing", "model address %s does not exist in the real document" % a, case))
                     bad = True
@@ -308,7 +311,10 @@ def term_chunk(exprs):
     viol, disag = [], []
     for x, mo in zip(exprs, model):
         stats["n"] += 1
-        st, val = sg.guarded(lambda: yp.get_search_term(log, x), 5.0)
+        def call():
+            with contextlib.redirect_stderr(io.StringIO()), contextlib.redirect_stdout(io.StringIO()):
+                return yp.get_search_term(log, x)
+        st, val = sg.guarded(call, 5.0)
         if st == "timeout":
             viol.append(("term-timeout", "get_search_term(%r) did not return" % x, {"kind": "term", "x": x}))
             continue
@@ -320,9 +326,9 @@ def term_chunk(exprs):
             impl = {"inv": bool(val.inverted), "m": val.method.name, "term": val.term}
             stats["some"] += 1
         if "err" in impl:
-            viol.append(("term-crash:%s" % impl["err"], "get_search_term(%r) raised %s" % (x, impl["err"]),
-                         {"kind": "term", "x": x}))
-            continue
+            # a crash on a malformed expression is C15/C16's matter (the tool dies before searching);
+            # here only "the model predicts the same outcome" is demanded
+            stats["crash"] = stats.get("crash", 0) + 1
         if impl != mo:
             disag.append(("term", "get_search_term(%r): impl %s, model %s" % (x, impl, mo), {"kind": "term", "x": x}))
     return stats, viol[:20], disag[:20]
@@ -339,19 +345,18 @@ def main_chunk(job):
     stats = {"n": 0, "skipped": 0, "nonempty": 0}
     viol, disag = [], []
     with tempfile.TemporaryDirectory(prefix="ypv-c07-") as td:
+        prepared = []
         for n, (src, term, opts) in enumerate(job):
-            case = {"doc": src, "term": term, "opts": opts, "via": "main"}
-            try:
-                root = sg.build(src)
-            except codec.OutOfModel:
+            if term["m"] == "REGEX" and "/" in term["term"]:
                 stats["skipped"] += 1
                 continue
             fn = os.path.join(td, "d%d.yaml" % n)
-            yaml = Parsers.get_yaml_editor()
             try:
+                root = sg.build(src)
                 with open(fn, "w", encoding="utf-8") as fh:
-                    yaml.dump(root, fh)
-                (data, ok) = Parsers.get_yaml_data(Parsers.get_yaml_editor(), core.quiet_logger(), fn)
+                    Parsers.get_yaml_editor().dump(root, fh)
+                with contextlib.redirect_stderr(io.StringIO()), contextlib.redirect_stdout(io.StringIO()):
+                    (data, ok) = Parsers.get_yaml_data(Parsers.get_yaml_editor(), core.quiet_logger(), fn)
                 if not ok:
                     stats["skipped"] += 1
                     continue
@@ -361,7 +366,26 @@ def main_chunk(job):
                 continue
             expr = ("!" if term["inv"] else "") + sg.OPS[term["m"]] + (
                 term["term"] if term["m"] != "REGEX" else "/" + term["term"] + "/")
-            if term["m"] == "REGEX" and "/" in term["term"]:
+            prepared.append({"src": src, "term": term, "opts": opts, "fn": fn, "mj": mj, "expr": expr})
+        # what the tool makes of the expressions; the regex texts; the model's answers
+        tms = drv.ask([{"op": "C07.term", "x": p["expr"]} for p in prepared])
+        prepared = [dict(p, tm=tm) for p, tm in zip(prepared, tms)]
+        stats["skipped"] += sum(1 for p in prepared if "m" not in p["tm"])
+        prepared = [p for p in prepared if "m" in p["tm"]]
+        rxs = [p for p in prepared if p["tm"]["m"] == "REGEX"]
+        for p, ans in zip(rxs, drv.ask([{"op": "C07.texts", "doc": p["mj"]} for p in rxs])):
+            p["rx"] = [[p["tm"]["term"], tx, cc.rx_answer(p["tm"]["term"], tx)] for tx in ans["texts"]]
+        reqs = []
+        for p in prepared:
+            r = {"op": "C07.search", "doc": p["mj"], "term": {"inv": p["tm"]["inv"], "m": p["tm"]["m"], "term": p["tm"]["term"]},
+                 "opts": {k: p["opts"][k] for k in ("sv", "sk", "sa", "ika", "iva", "expand", "fslash")}}
+            if "rx" in p:
+                r["rx"] = p["rx"]
+            reqs.append(r)
+        for p, mo in zip(prepared, drv.ask(reqs)):
+            opts = p["opts"]
+            case = {"doc": p["src"], "term": p["term"], "opts": opts, "via": "main"}
+            if mo.get("oom"):
                 stats["skipped"] += 1
                 continue
             argv = ["yaml-paths", "--nostdin", "--nofile", "--pathsep=" + ("/" if opts["fslash"] else "."),
@@ -372,21 +396,7 @@ def main_chunk(job):
                 argv.append("--refnames")
             if opts["expand"]:
                 argv.append("--expand")
-            argv += ["--search", expr, fn]
-            # what the tool makes of the expression
-            tm = drv.ask([{"op": "C07.term", "x": expr}])[0]
-            if "m" not in tm:
-                stats["skipped"] += 1
-                continue
-            req = {"op": "C07.search", "doc": mj, "term": {"inv": tm["inv"], "m": tm["m"], "term": tm["term"]},
-                   "opts": {k: opts[k] for k in ("sv", "sk", "sa", "ika", "iva", "expand", "fslash")}}
-            if tm["m"] == "REGEX":
-                txs = drv.ask([{"op": "C07.texts", "doc": mj}])[0]["texts"]
-                req["rx"] = [[tm["term"], tx, cc.rx_answer(tm["term"], tx)] for tx in txs]
-            mo = drv.ask([req])[0]
-            if mo.get("oom"):
-                stats["skipped"] += 1
-                continue
+            argv += ["--search", p["expr"], p["fn"]]
             out = io.StringIO()
             old = sys.argv
 
@@ -413,8 +423,8 @@ def main_chunk(job):
                 viol.append(("main-exit:%s" % val, "yaml-paths %s exited %s" % (argv[1:-1], val), case))
                 continue
             if lines != mo["dedup"]:
-                viol.append(("main-output:%s" % opt_sig(opts), "yaml-paths printed %r; the specification demands %r" % (
-                    lines, mo["dedup"]), case))
+                viol.append(("main-output:%s" % opt_sig(opts), "yaml-paths %s printed %r; the specification demands %r" % (
+                    argv[1:-1], lines, mo["dedup"]), case))
                 continue
             if lines:
                 stats["nonempty"] += 1
@@ -524,6 +534,7 @@ def run(chk: core.Check, tier=None):
             chk.evaluations += stats["n"]
             chk.count("get_search_term:cases", stats["n"])
             chk.count("get_search_term:accepted", stats["some"])
+            chk.count("get_search_term:crash(model agrees)", stats.get("crash", 0))
         else:
             stats, viol, disag = res
             chk.evaluations += stats["n"]
